@@ -78,7 +78,7 @@ def contextify(line, func, msg, comment, context):
         if func is None:
             raise ValueError("failure, bogus extraction method")
         if isinstance(msg, tuple):
-            msg = (context, tuple[0], tuple[1])
+            msg = (context, msg[0], msg[1])
         else:
             msg = (context, msg)
     return line, func, msg, comment
